@@ -195,12 +195,76 @@ def sortModel (g : MGraph) : Option (List (Nat × List Nat)) :=
   else if out.length != u.length then none
   else some ((graphsOf g).map (fun gc => (gc.1, relink gc.2 (bucket u out gc.1))))
 
-/-- what a caller observes: `(raised, node order of every graph afterwards)`; when the cycle check
-    raises nothing has been re-linked (_core.py:4006-4013). -/
-def sortEffect (g : MGraph) : Bool × List (Nat × List Nat) :=
-  match sortModel g with
-  | none => (true, graphsOf g)
-  | some r => (false, r)
+/-! ### Steps 4-5 as a sequence of effects on the node containers
+
+`sortModel` above gives the result of a successful sort as a value.  What a caller *observes*
+(also when the call raises) is the state of the node containers, which the code changes one
+`graph.extend` at a time.  The effects are listed in the order the code performs them: the cycle
+test (`raise`) first, then one re-link per entry of `sorted_nodes_by_graph` — a dict created from
+a *set* of graphs (_core.py:4027-4029, 4113), so its iteration order is arbitrary: `order` below is
+any arrangement of the graphs of the tree. -/
+
+/-- one observable effect of steps 4-5 -/
+inductive Eff where
+  /-- `graph.extend(xs)` on the graph object with id `gid` (_core.py:4113) -/
+  | relink (gid : Nat) (xs : List Nat)
+  /-- `raise ValueError` (_core.py:4106-4108); nothing after it is executed -/
+  | raise
+deriving Repr, DecidableEq
+
+/-- the effects of steps 4-5 when `sorted_nodes_by_graph` is iterated in the order `order` -/
+def sortTraceIn (order : List (Nat × List Nat)) (g : MGraph) : List Eff :=
+  let u := nodesOf g
+  let out := kahn u.length (predsAt u)
+  if sharedGraph u then [Eff.raise]
+  else if out.length != u.length then [Eff.raise]
+  else order.map (fun gc => Eff.relink gc.1 (bucket u out gc.1))
+
+/-- the effects with the graphs visited in pre-order -/
+def sortTrace (g : MGraph) : List Eff := sortTraceIn (graphsOf g) g
+
+/-- one effect on the containers (`gid -> node sequence`, one entry per occurrence of a graph in
+    the tree); `none` = the call raises here and the containers stay as they are at this point -/
+def applyEff (st : List (Nat × List Nat)) : Eff → Option (List (Nat × List Nat))
+  | .raise => none
+  | .relink k xs => some (st.map (fun gc => if gc.1 = k then (gc.1, relink gc.2 xs) else gc))
+
+/-- run the effects in order; `(raised, containers afterwards)` -/
+def runEffs : List (Nat × List Nat) → List Eff → Bool × List (Nat × List Nat)
+  | st, [] => (false, st)
+  | st, e :: es => match applyEff st e with
+    | none => (true, st)
+    | some st' => runEffs st' es
+
+/-- what a caller observes: `(raised, node order of every graph afterwards)` -/
+def sortEffect (g : MGraph) : Bool × List (Nat × List Nat) := runEffs (graphsOf g) (sortTrace g)
+
+/-! ### `TopologicalSortPass.call` (passes/common/topological_sort.py, with fix D201)
+
+The pass records the node order of every graph-like (main graph, functions, all nested graphs),
+sorts the main graph and then each function in `model.functions` order (`Function.sort` is
+`self._graph.sort()`, _core.py:4814-4816, i.e. the same `sortEffect` on the function's graph) and,
+when one of the sorts raises, re-extends every recorded graph with its recorded order before
+re-raising. -/
+
+/-- the sorts in sequence: `(raised, containers of every graph-like at that point)`; the graphs
+    after the one that raised have not been touched -/
+def passSorts : List MGraph → Bool × List (List (Nat × List Nat))
+  | [] => (false, [])
+  | g :: rest =>
+    let e := sortEffect g
+    if e.1 then (true, e.2 :: rest.map graphsOf)
+    else let r := passSorts rest; (r.1, e.2 :: r.2)
+
+/-- `for original_nodes, graph_like in zip(original_orders, graph_likes): graph_like.extend(original_nodes)` -/
+def passRestore (orig cur : List (List (Nat × List Nat))) : List (List (Nat × List Nat)) :=
+  List.zipWith (fun o c => List.zipWith (fun og cg => (cg.1, relink cg.2 og.2)) o c) orig cur
+
+/-- the pass on `[main] ++ functions`: `(raised, containers of every graph-like afterwards)` -/
+def passEffect (gs : List MGraph) : Bool × List (List (Nat × List Nat)) :=
+  let orig := gs.map graphsOf
+  let r := passSorts gs
+  if r.1 then (true, passRestore orig r.2) else r
 
 /-! ### Specification predicates
 
